@@ -500,11 +500,11 @@ func runC05(c *core.Ctx) {
 func init() {
 	core.Register(&core.Property{
 		ID: "C05", Engine: "G", Level: "exploration", Bubble: true,
-		Rule: "each run: a real NodeManager block synchroniser (TriggerBlockSynchronize / synchronizeBlocks, started through the verif hook for the startup delay) over a real headers.Repository, a real BlockManager.Run with real BlockDownloaders, simulated block sources and a recording processor/block store; tape-chosen start height 1-5, chain length, pre-processed prefix, ConcurrentBlockRequests 1-2, request delay; at every quiescent point the tape picks: a source serves (fully, wrong block, cut stream, drop before/after start), the clock advances (1 s .. 1 min), a new block arrives, a heavier fork reorganises 1-3 blocks (possibly the block being requested), or no node is available for a while; a BlockManager that gives up ends the run (the program exits there); then a fault-free epilogue with honest sources; non-trivial = every run; distinct = distinct hash of the canonical event log",
+		Rule: "each run: a real NodeManager block synchroniser (TriggerBlockSynchronize / synchronizeBlocks, started through the verif hook for the startup delay) over a real headers.Repository, a real BlockManager.Run with real BlockDownloaders, simulated block sources and a recording processor/block store; tape-chosen start height 1-5, chain length, pre-processed prefix, ConcurrentBlockRequests 1-2, request delay; at every quiescent point the tape picks: a source serves (fully, wrong block, cut stream, drop before/after start), the clock advances (1 s .. 1 min), a new block arrives, a heavier fork reorganises 1-3 blocks (possibly the block being requested), or no node is available for a while; a BlockManager that gives up ends the run (the program exits there); then a fault-free epilogue with honest sources; non-trivial = every run; distinct = distinct hash of the canonical event log; in half of the runs the epilogue is quiet (nothing triggers synchronisation after the faults stop). Engine F phase (second search phase, instrumented build, see DESIGN.md 2.4): the same world with the synchroniser, the block manager and the downloaders under the tape's statement-level scheduler (node_manager.go, block_manager.go, block_downloader.go rewritten), goroutines stalled at tape-chosen sites for up to 31 simulated seconds (also while holding locks), the clock pumped between timers and the driver's next action landing in the middle of the reaction to the timers of the final instant",
 		Real: append([]string{"NodeManager.TriggerBlockSynchronize / runSynchronizeBlocks / synchronizeBlocks (real code)", "headers.Repository (real code)"}, blockReal...), Stub: blockStub,
 		Assumptions: []string{"header arrival is modelled by direct ProcessHeader calls plus TriggerBlockSynchronize (what MonitorHeaders does for an in-sync node)",
 			"liveness is checked only in the fault-free epilogue, with a budget of 30 simulated minutes per block"},
-		FaultKinds:   []string{"reorg", "source:none-available", "source:wrong-block", "source:stream-cut", "source:drop-before-start", "source:drop-mid-block"},
+		FaultKinds:   []string{"schedule:goroutine-stalled", "reorg", "source:none-available", "source:wrong-block", "source:stream-cut", "source:drop-before-start", "source:drop-mid-block"},
 		ProbeNames:   []string{"block-processed", "new-header-during-sync", "reorg-orphaned-old-tip", "sync-complete", "block-manager-gave-up", "block-processed-twice-with-concurrent-downloads"},
 		Run:          runC05,
 		QuickSeconds: 20, ThoroughSeconds: 700, MinRuns: 200, BatchSize: 20, RunTimeoutSeconds: 300,
